@@ -50,7 +50,7 @@ Definition st_eqb (a b : st) : bool :=
   Bool.eqb (route_matched a) (route_matched b) && Nat.eqb (rcursor a) (rcursor b) && Nat.eqb (scursor a) (scursor b) &&
   list_eqb Nat.eqb (fcalls a) (fcalls b) && list_eqb Nat.eqb (scalls a) (scalls b) && list_eqb phase_eqb (delayed a) (delayed b) &&
   Bool.eqb (reuse a) (reuse b) && Bool.eqb (gave a) (gave b) && Bool.eqb (abandoned a) (abandoned b) && Nat.eqb (nfin a) (nfin b) && Z.eqb (rc a) (rc b) && Bool.eqb (global_ever a) (global_ever b) && Bool.eqb (x_loop a) (x_loop b) &&
-  Bool.eqb (x_upf a) (x_upf b) && Bool.eqb (x_nog a) (x_nog b).
+  Bool.eqb (x_upf a) (x_upf b) && Bool.eqb (x_nog a) (x_nog b) && opt_eqb Z.eqb (status_var a) (status_var b) && Bool.eqb (x_stale a) (x_stale b).
 
 Ltac split_andb H :=
   repeat match type of H with (_ && _) = true => let H2 := fresh "E" in apply andb_prop in H as [H H2] end.
@@ -65,6 +65,7 @@ Proof.
   | E : Nat.eqb _ _ = true |- _ => apply nat_eqb_eq in E
   | E : Z.eqb _ _ = true |- _ => apply z_eqb_eq in E
   | E : opt_eqb Nat.eqb _ _ = true |- _ => apply (opt_eqb_eq _ nat_eqb_eq) in E
+  | E : opt_eqb Z.eqb _ _ = true |- _ => apply (opt_eqb_eq _ z_eqb_eq) in E
   | E : opt_eqb resp_eqb _ _ = true |- _ => apply (opt_eqb_eq _ resp_eqb_eq) in E
   | E : list_eqb Nat.eqb _ _ = true |- _ => apply (list_eqb_eq _ nat_eqb_eq) in E
   | E : list_eqb phase_eqb _ _ = true |- _ => apply (list_eqb_eq _ phase_eqb_eq) in E
@@ -188,6 +189,7 @@ Definition hash (x : ist) : positive :=
            | None => xO p
            | Some r => xI (pb (r_data r) (pb (r_trailers r) (match r_kind r with KUp => xO (pb (r_code r <? 500) p) | KHijack => xI (xO (pz (r_code r - 502) p)) | KDirect => xI (xI p) end)))
            end in
+  let p := match status_var s with None => xO p | Some z => xI (pb (z <? 500) p) end in
   let p := pn (g_choose g) p in
   let p := pz (g_res g) p in
   let p := pz (rc s) p in
